@@ -62,6 +62,8 @@ def run(repo: Repo, L: Ledger, tier: str):
         if v is None:
             if loads:
                 ok, why = False, "a path loads the cache without consulting the validator"
+            elif reb.name in called:
+                seen[False] += 1  # e.g. the false edge of `not force and validator()`: rebuilds, whatever the validator says
             continue
         seen[v] += 1
         if v and (loads != {ld_i.name, ld_a.name} or reb.name in called):
